@@ -312,8 +312,11 @@ ACT_STYLES = [
     "finish-in-context",
     "remote:immediate,bytes-id",
     "remote:deferred,str-id",
+    "re-enter current action with run()",
+    "re-enter current action with context()",
 ]
 REMOTE_STYLES = (6, 7)
+REENTER_STYLES = (8, 9)
 
 # Default attribute schema (name, number of values).  Checks pass their own
 # restriction of it.
@@ -334,8 +337,8 @@ SCHEMA = {
 def valid_default(prog):
     """Skip attribute combinations that merely duplicate another program."""
     for top in prog:
-        if top[0] == "a" and top[1].get("style", 0) in REMOTE_STYLES:
-            return False  # nothing to continue at top level
+        if top[0] == "a" and top[1].get("style", 0) in REMOTE_STYLES + REENTER_STYLES:
+            return False  # nothing to continue / re-enter at top level
     for nd in walk(prog):
         a = nd[1]
         if nd[0] == "a":
@@ -347,6 +350,10 @@ def valid_default(prog):
                 a.get("typed", 0) or a.get("at", 0)
             ):
                 return False  # remote continuation has a fixed type here
+            if a.get("style", 0) in REENTER_STYLES and any(
+                a.get(k, 0) for k in ("typed", "at", "sf", "ef", "xf")
+            ):
+                return False  # a re-entry scope creates no action of its own
         else:
             if a.get("api", 0) in (4, 5, 6) and a.get("mt", 0):
                 return False  # typed / traceback messages have a fixed type
@@ -509,6 +516,20 @@ class Interp(object):
     def exec_act(self, s):
         a = s[1]
         style = a.get("style", 0)
+        if style in REENTER_STYLES:
+            # no new action: re-enter the context of the action that is already current
+            cur = current_action()
+
+            def scope():
+                self.exec_block(s[2])
+                self._raise(s)
+
+            if style == 8:
+                cur.run(scope)
+            else:
+                with cur.context():
+                    scope()
+            return
         typed = a.get("typed", 0)
         sfi, efi = a.get("sf", 0), a.get("ef", 0)
         sf = dict(ALL_FS[sfi])
